@@ -100,6 +100,7 @@ def run(ck):
             ck.count('policy:' + sc['phases'][0]['policy'].get('flavour', '?'))
             if len(ck.samples) < 3 and len(res.trace) > 30:
                 ck.sample({'program': sc['program'], 'backend': sc['backend'], 'events': [X.ev_show(e) for e in res.trace[:30]]})
+    X.require_coverage(ck, [X.WAIT_KEY, X.DUMP_KEY], 'lock-step runs')
     b.flush()
     cli_persistence(ck)
     # end to end: generated jugfile TEXTS run by real concurrent `jug execute` processes (file / keep-alive / dict /
